@@ -329,6 +329,56 @@ def v_three_ion_types(items):
     return None
 
 
+def _rot_to(v, d):
+    """Rotation matrix taking unit vector v to unit vector d (Rodrigues)."""
+    import math
+    ax = (v[1]*d[2]-v[2]*d[1], v[2]*d[0]-v[0]*d[2], v[0]*d[1]-v[1]*d[0])
+    sn = math.sqrt(sum(c*c for c in ax))
+    cs = sum(a*b for a, b in zip(v, d))
+    if sn < 1e-9:
+        return [[1, 0, 0], [0, 1, 0], [0, 0, 1]] if cs > 0 else [[-1, 0, 0], [0, -1, 0], [0, 0, 1]]
+    k = tuple(a/sn for a in ax)
+    K = [[0, -k[2], k[1]], [k[2], 0, -k[0]], [-k[1], k[0], 0]]
+    K2 = [[sum(K[i][m]*K[m][j] for m in range(3)) for j in range(3)] for i in range(3)]
+    return [[(1 if i == j else 0) + sn*K[i][j] + (1-cs)*K2[i][j] for j in range(3)] for i in range(3)]
+
+
+def acid_triad(struct, dist=2.5):
+    """A hydrogen-bonded chain of three carboxylates, Glu...Asp...Glu, built by
+    rigidly docking two complete glutamates of the structure onto the two
+    carboxylate oxygens of a complete aspartate.  Such chains make the
+    iterative part of the model multi-stable (several self-consistent
+    assignments), which ordinary fragments are not."""
+    full = {'ASP': ('N', 'CA', 'C', 'O', 'CB', 'CG', 'OD1', 'OD2'),
+            'GLU': ('N', 'CA', 'C', 'O', 'CB', 'CG', 'CD', 'OE1', 'OE2')}
+    found = {'ASP': [], 'GLU': []}
+    for key, idx in P.residues(struct):
+        if key[3] in full and struct[idx[0]][1].tag == 'ATOM  ':
+            names = {struct[i][1].name.strip(): struct[i][1] for i in idx}
+            if all(n in names for n in full[key[3]]):
+                found[key[3]].append([names[n] for n in full[key[3]]])
+    if not found['ASP'] or len(found['GLU']) < 2:
+        return None
+    asp, g1, g2 = found['ASP'][0], found['GLU'][0], found['GLU'][1]
+    an = {a.name.strip(): a for a in asp}
+
+    def dock(glu, oxy):
+        g = {a.name.strip(): a for a in glu}
+        u = P.unit(P.sub(an[oxy].xyz, an['CG'].xyz))
+        v = P.unit(P.sub(g['OE1'].xyz, g['CD'].xyz))
+        R = _rot_to(v, tuple(-x for x in u))
+        target = P.add(an[oxy].xyz, u, dist)
+        o = g['OE1'].xyz
+        out = []
+        for a in glu:
+            q = P.sub(a.xyz, o)
+            r = tuple(sum(R[i][j]*q[j] for j in range(3)) for i in range(3))
+            out.append(a.with_xyz(*P.add(r, target)))
+        return out
+    return ([('A', a) for a in asp] + [('A', a) for a in dock(g1, 'OD1')]
+            + [('A', a) for a in dock(g2, 'OD2')])
+
+
 # ---------------------------------------------------------------- builder
 
 def v_icode(items, which):
@@ -462,6 +512,9 @@ def build(repo, size='full'):
     c = [a.xyz for a in find_atoms(hpx, 'ASP', 'CG', resnum=25)]
     fam('hpx_asp25', sphere(hpx, c, 7.0))
     fam('hpx_asp25s', sphere(hpx, c, 4.0, keep_water=0), nvar=2)
+    tri = acid_triad(hpx)
+    if tri:
+        fam('hpx_triad', tri, nvar=2)
     kni = [a.xyz for a in find_atoms(hpx, 'KNI')]
     if kni:
         fam('hpx_kni', sphere(hpx, kni[::6], 5.0))
@@ -559,6 +612,7 @@ def build_params(repo):
         ('shccc', [('shared_determinants', '1'), ('common_charge_centre', '1')],
          'shared determinants and common charge centre on'),
         ('pkas', [('model_pkas', None)], 'other model pKa'),
+        ('pkas2', [('model_pkas', 'big')], 'strongly different model pKa (Asp above Glu)'),
         ('coul', [('coulomb_cutoff1', '5.0'), ('coulomb_cutoff2', '12.0')], 'other Coulomb cut-offs'),
         ('desol', [('desolvationPrefactor', '-11.0')], 'other desolvation prefactor'),
         ('cpl2', [('coupling_max_number_of_bonds', '2'), ('max_intrinsic_pka_diff', '3.0')], 'other coupling reach'),
@@ -598,7 +652,11 @@ def build_params(repo):
         for k, v in es:
             if t is None:
                 break
-            if k == 'model_pkas':
+            if k == 'model_pkas' and v == 'big':
+                t2 = t.replace('model_pkas ASP  3.80', 'model_pkas ASP  6.00', 1)
+                t2 = t2.replace('model_pkas GLU  4.50', 'model_pkas GLU  3.00', 1)
+                t = t2 if t2 != t else None
+            elif k == 'model_pkas':
                 t = t.replace('model_pkas ASP  3.80', 'model_pkas ASP  4.10', 1)
                 if t == base:
                     t = None
